@@ -18,7 +18,7 @@ EXPLANATION = (
     "positionally from self.weather_df) whole-row operations (dropna, drop_duplicates, duplicated) name the columns they look at - an unrelated "
     "extra column must not decide which days survive. C15.d (day binding): the frame read_weather_inputs returns is guarded by a raising test that "
     "compares its dates for equality with clock.time_span, and the frame is not re-defined after that comparison - the daily step and the "
-    "season-long degree-day sums address rows by day number, so a missing / duplicated / out-of-order record must not get through. C15.e: a bookkeeping column the model adds ('gdd', 'season') is written only into a frame the model built itself or restricted by name to the required columns - never into a frame that still carries the user's extra columns. C15.f: rows of the weather frame are never dropped or selected through the labels of the user's index (repeated labels), only by masks on columns, by position, or by labels of an index the function itself set from the Date column. C15.g: no function that receives the weather frame (the model's weather setter, initialisation, the weather reader, the degree-day preparation) writes into one of the five required columns from anything but that same column - in particular Date is never rebuilt from the index (expected count zero; the matcher is exercised on an embedded example with item store, attribute store, .loc store, assign and insert). C15.h (T-ARGS): once read from its column, a weather variable is handed on under its own name - no call of the package binds two positional arguments crosswise (temp_max / temp_min, rain / reference ET). C15.i: in the functions that receive the weather frame no column is chosen by a name pattern (filter(like/regex)), by dtype or by position (iloc[:, k], columns[k]) and nothing is aggregated across all columns (mean(axis=1)) - an unrelated extra column would join in (expected count zero, embedded positive example). NOT decided: numerical identity of the runs.")
+    "season-long degree-day sums address rows by day number, so a missing / duplicated / out-of-order record must not get through. C15.e: a bookkeeping column the model adds ('gdd', 'season') is written only into a frame the model built itself or restricted by name to the required columns - never into a frame that still carries the user's extra columns. C15.f: rows of the weather frame are never dropped or selected through the labels of the user's index (repeated labels), only by masks on columns, by position, or by labels of an index the function itself set from the Date column. C15.g: no function that receives the weather frame (the model's weather setter, initialisation, the weather reader, the degree-day preparation) writes into one of the five required columns from anything but that same column - in particular Date is never rebuilt from the index (expected count zero; the matcher is exercised on an embedded example with item store, attribute store, .loc store, assign and insert). C15.h (T-ARGS): once read from its column, a weather variable is handed on under its own name - no call of the package binds two positional arguments crosswise (temp_max / temp_min, rain / reference ET). C15.i: in the functions that receive the weather frame no column is chosen by a name pattern (filter(like/regex)), by dtype or by position (iloc[:, k], columns[k]) and nothing is aggregated across all columns (mean(axis=1)) - an unrelated extra column would join in (expected count zero, embedded positive example). C15.j: prepare_weather dates every record from its own Year / Month / Day fields (read by name, all rows), never from a generated calendar over the row count. NOT decided: numerical identity of the runs.")
 
 RECEIVER = {
     "MinTemp": re.compile(r"(^|_)(t?min|temp_min|tmin)", re.I),
@@ -122,6 +122,29 @@ def run(chk, prog, tier):
     # ---------------------------------------------------------------- C15.g
     from ._weather import required_column_stores
     chk.floor("C15.g", required_column_stores(chk, prog, "C15.g"), 3, "functions receiving the weather frame scanned for stores into required columns")
+    # ---------------------------------------------------------------- C15.j
+    # the file reader dates each record by its OWN day / month / year fields: the value stored to the Date column of the frame it returns
+    # reads the three columns by name and is not a generated calendar (date_range / arange over the row count) - a file with a gap, or
+    # listed newest-first, would have every later record dated by its position
+    pw = prog.find_func("prepare_weather")
+    chk.fn(pw.key)
+    nj = 0
+    for a in walk_no_nested(pw.node):
+        t = a.targets[0] if isinstance(a, ast.Assign) and len(a.targets) == 1 else None
+        if not (isinstance(t, ast.Subscript) and isinstance(t.slice, ast.Constant) and t.slice.value == "Date") and not (isinstance(t, ast.Attribute) and t.attr == "Date"):
+            continue
+        nj += 1
+        consts = {x.value for x in ast.walk(a.value) if isinstance(x, ast.Constant) and isinstance(x.value, str)}
+        gen = [norm(c.func) for c in ast.walk(a.value) if isinstance(c, ast.Call) and norm(c.func).split(".")[-1] in ("date_range", "period_range", "timedelta_range", "arange", "bdate_range")]
+        whole = all(not isinstance(p_, ast.Subscript) or not (isinstance(p_.value, ast.Attribute) and p_.value.attr in ("iloc", "loc", "head")) for p_ in ast.walk(a.value))
+        construct = norm(a)[:90]
+        if {"Year", "Month", "Day"} <= consts and not gen and whole:
+            chk.ok("C15.j", f"{pw.module}:{pw.qualname}", construct, "every record dated from its own Year / Month / Day fields")
+        else:
+            chk.violation("C15.j", f"{pw.module}:{pw.qualname}", construct, "the Date column is not built from each record's own Year / Month / Day fields"
+                          + (f" (a generated calendar: {gen[0]})" if gen else "") + ": records after a gap in the file, or a file listed in another order, are dated by their "
+                          "row position and the model reads another day's weather", loc=pw.loc(a))
+    chk.floor("C15.j", nj, 1, "stores to the Date column in prepare_weather")
     # ---------------------------------------------------------------- C15.i
     from ._weather import pattern_column_selection
     chk.floor("C15.i", pattern_column_selection(chk, prog, "C15.i"), 3, "functions receiving the weather frame scanned for pattern / dtype / positional column selections")
